@@ -286,5 +286,17 @@ pub fn run(a: &HashMap<String, String>) -> (usize, usize) {
             }
         }
     }
+    {
+        let v = super::fail::child_runs_first_case();
+        cases += 1;
+        if v.is_empty() {
+            println!("CASE child runs first OK");
+        } else {
+            viols += 1;
+            for m in v {
+                println!("CASE child runs first VIOL {}", m);
+            }
+        }
+    }
     (cases, viols)
 }
